@@ -45,7 +45,7 @@ META = {
             "mode) whose cases were compared on every rank of a run that reached its end",
     "assumptions": ["only the listed count/datatype/operator values are driven; the quick tier visits 2 of the 39 (size, placement) "
                     "configurations of each algorithm per seed (sizes <= 8) with a stratified sample of 96 calls per collective "
-                    "(thorough: all 39, at most 600 calls per collective)",
+                    "(thorough: all 39, a stratified sample of 128 calls per collective, 64 for the sizes other than 1,2,3,4,5,7,8,12,16)",
                     "the simulated platform is one homogeneous cluster; placements: one rank per host, blocks of 2 or 4 ranks per "
                     "host, cyclic over 2 or 3 hosts, and a communicator with reversed rank order",
                     "cases in the class of a listed root cause (gen/colls_findings.py) are run apart from the others; of the "
@@ -529,7 +529,8 @@ def cases_for(ctx, unit, np, layout):
     rng = ctx.sub_rng(unit[0], unit[1], np, layout)
     cases = []
     for call in unit[2]:
-        cases += G.gen_cases(call, unit[3], np, rng, ctx.tier, limit=(G.QUICK_CASES if ctx.tier == "quick" else G.THOROUGH_CASES))
+        limit = G.QUICK_CASES if ctx.tier == "quick" else (G.THOROUGH_CASES if np in G.REQUIRED_NP else G.THOROUGH_CASES // 2)
+        cases += G.gen_cases(call, unit[3], np, rng, ctx.tier, limit=limit)
     return G._number(cases)
 
 
